@@ -10,6 +10,10 @@
 //     verifier and compares with the reference predicate of the statement.
 //   - TestE2E* dial a real listener over loopback UDP (thorough tier; a few
 //     TestE2EFollowingPeriod cases also in the quick tier).
+//   - TestE2EDialledHashes (dialaddr_test.go, both tiers) dials a real listener with generated
+//     certhash sequences (multihash code x genuine/foreign digest x position) and demands that
+//     the dial completes only if the served hash is pinned and the server confirmed every
+//     certhash of the address.
 //   - TestWitness_* are the deterministic witnesses of the two defects this check found.
 package c18
 
@@ -73,12 +77,20 @@ func TestMain(m *testing.M) {
 			"must complete while the instance the address was learnt from keeps running and serves the learn period or the following one; beyond that only 'a certificate whose hash is not in the address is refused'; "+
 			"against a restarted instance only the certificate check is demanded (whether it confirms the older hash is a label). "+
 			"Non-trivial = some sample lies within 1 ms of a rotation boundary (NotBefore+skew / NotAfter-skew) or follows a restart; distinct = (key kind, offset class, start class, step classes, rollovers). "+
-			"Verifier: generated (chain of 0/1/2 certs, hash list, verification instant) against the reference predicate; non-trivial = at most one conjunct of the predicate fails; distinct = class tuple.",
+			"Verifier: generated (chain of 0/1/2 certs, hash list, verification instant) against the reference predicate; non-trivial = at most one conjunct of the predicate fails; distinct = class tuple. "+
+			"DialledHashes (real transport.Dial over loopback UDP against a real listener on a pinned mock clock, 2 listeners per shard): rapid draws the certhash SEQUENCE of the dialled address, 0..5 elements, every element = "+
+			"(multihash code, digest, position): served sha2-256 | the other confirmed sha2-256 | bogus / bit-flipped sha2-256 | the served or the other confirmed digest under another code | the genuine digest of the served certificate under another hash function | a foreign digest under another hash function, "+
+			"codes sha2-512, sha3-224/256/512, keccak-224/256, blake2b-256/512, blake2s-256, blake3, sha1, md5, dbl-sha2-256, identity, an unnamed code and a private-use code; "+
+			"plans: all confirmed incl. served (control), exactly one unconfirmed element first / in the middle / last among confirmed ones, served hash absent, only non-sha2-256 hashes, only unconfirmed hashes, free mix, no certhash. "+
+			"Oracle: what the listener serves (rawCerts[0]) and confirms (certhashes of its Noise handshake payload) is observed by a reference client made of quic-go + webtransport-go + noise, without code of the package; "+
+			"a dial may complete only if SHA-256(served leaf) is a sha2-256 hash of the address AND every certhash of the address, whatever its code and position, is in the confirmed list; control: if both hold the dial must complete. "+
+			"Non-trivial = at most one reason to refuse (control, exactly one unconfirmed element, or only the served hash missing); distinct = (plan, sequence of element kinds incl. code).",
 		"crypto/x509 parsing and crypto/sha256 are trusted (used by the oracle)",
 		"the clock-skew allowance is the exported constant (1h); the 14-day bound is taken from the statement",
 		"the 'server certificate' of a chain is rawCerts[0] (what crypto/tls authenticates the handshake with); 'RSA' = RSA public key or any RSA (PKCS#1 v1.5 / PSS) signature",
 		"inside the bubble the Noise early-data confirmation is modelled: the list the server sends is SerializedCertHashes() (listener.handshake) and the dialer demands every hash of the dialled address in it (transport.upgrade); "+
-			"the real handshake runs in the loopback cases only (TestE2EFollowingPeriod: 4 cases in the quick tier with 1..3 rollovers of the running listener and addresses learnt before/after each, 12 + TestE2EPinning/StaleServer in the thorough tier)",
+			"the real handshake runs in the loopback cases only (TestE2EDialledHashes: 2000 generated dialled addresses in the quick tier, 40000 in the thorough tier; TestE2EFollowingPeriod: 4 cases in the quick tier with 1..3 rollovers of the running listener and addresses learnt before/after each, 12 + TestE2EPinning/StaleServer in the thorough tier)",
+		"loopback cases: real time is used for I/O only (a dial that runs into its 15 s deadline is skipped as inconclusive); the listeners of TestE2EDialledHashes sit on a mock clock pinned to the start of the test and are observed again at the end (a change makes the test inconclusive)",
 		"an address is promised to keep working only against the listener instance it was learnt from while that instance keeps running; a restart forgets the previous period's hash (lastConfig is nil after init) and is reported as a label, not as a violation",
 	)
 	hx.Main(m)
